@@ -577,6 +577,54 @@ func c20e(c *Ctx) {
 			chunkLabelsMap = mu.Map
 		}
 	})
+	// ... or by a helper that returns the set it has just filled
+	var builtBy ssa.Value
+	if !okBuild {
+		for _, call := range callsToIn(rc, rs) {
+			hc, isCall := call.Common().Args[2].(*ssa.Call)
+			if !isCall {
+				continue
+			}
+			g := callee(hc)
+			if g == nil || !c.W.InRepo(g) {
+				continue
+			}
+			// the helper writes nothing but the set it builds
+			onlyLocal := true
+			for _, w := range c.Eff().Writes(g) {
+				onlyLocal = onlyLocal && strings.HasPrefix(w, "map:")
+			}
+			instrs(g, func(in ssa.Instruction) {
+				if mu, ok := in.(*ssa.MapUpdate); ok {
+					_, isLocal := mu.Map.(*ssa.MakeMap)
+					onlyLocal = onlyLocal && isLocal
+				}
+			})
+			if !onlyLocal {
+				continue
+			}
+			instrs(g, func(in ssa.Instruction) {
+				mu, ok := in.(*ssa.MapUpdate)
+				if !ok {
+					return
+				}
+				if _, isLocal := mu.Map.(*ssa.MakeMap); !isLocal {
+					return
+				}
+				returned := false
+				for _, r := range returnsOf(g) {
+					returned = returned || (len(r.Results) == 1 && r.Results[0] == mu.Map)
+				}
+				k := c.term(g, mu.Key)
+				for i, a := range hc.Call.Args {
+					if returned && strings.HasPrefix(k, "(*emitter.chunk).getLabel(") && strings.Contains(k, fmt.Sprintf(",$%d)", i)) && c.term(rc, a) == "$2" {
+						okBuild = true
+						builtBy = hc
+					}
+				}
+			})
+		}
+	}
 	c.Check(okBuild, "renderChunks/chunk-labels-built", c.W.FuncPos(rc), "generated label of every chunk of the script is collected", "renderChunks does not collect getLabel(scriptName) of its chunks")
 	if chunkLabelsMap != nil {
 		_, isLocal := chunkLabelsMap.(*ssa.MakeMap)
@@ -592,6 +640,12 @@ func c20e(c *Ctx) {
 			c.Check(complete, "renderChunks/chunk-labels-complete-before-rendering", c.W.Pos(call.Pos()), "all generated labels are collected before any statement is rendered", "generated chunk labels are still being collected while statements are rendered: a script label is only checked against the chunks rendered so far")
 			a := call.Common().Args
 			c.Check(a[2] == chunkLabelsMap && c.term(rc, a[3]) == "$4", "renderChunks/passes-both-sets", c.W.Pos(call.Pos()), "renderStatements receives the chunk-label set and the text-label set", "renderStatements is not given (chunkLabels, textLabels)")
+		}
+	}
+	if builtBy != nil {
+		for _, call := range callsToIn(rc, rs) {
+			a := call.Common().Args
+			c.Check(a[2] == builtBy && c.term(rc, a[3]) == "$4", "renderChunks/passes-both-sets", c.W.Pos(call.Pos()), "renderStatements receives the chunk-label set and the text-label set", "renderStatements is not given (chunkLabels, textLabels)")
 		}
 	}
 	// Emit: textLabels built from every program text and handed down
